@@ -11,6 +11,7 @@ import itertools
 
 from mc import cells as C
 from mc import sgr
+from mc import repeat
 from mc.runner import Acc, Report
 from mc.props import c01
 
@@ -192,8 +193,8 @@ def shard_exotic(args):
     from curtsies.formatstring import FmtStr
 
     acc = Acc(seed=seed)
-    specs = C.exotic_specs() + C.huge_specs()
-    for si in range(idx, len(specs), 8):
+    specs = C.exotic_specs() + C.huge_specs() + C.scale_specs(tier == "thorough")
+    for si in range(idx, len(specs), 32):
         spec = specs[si]
         f = C.build(spec)
         want = C.spec_cells(spec)
@@ -241,12 +242,13 @@ def twins(acc):
 
 def run(ctx):
     rep = Report()
+    repeat.run_into(ctx, rep, "C05")
     acc = Acc(seed=ctx.seed)
     twins(acc)
     rep.merge(acc, "bool_int_twin_values_in_fresh_processes")
     for d in ctx.pmap(shard_long_text, [(ctx.tier, ctx.seed, i, 32) for i in range(32)]):
         rep.merge(d, "long_text_every_offset")
-    for d in ctx.pmap(shard_exotic, [(ctx.tier, ctx.seed, i) for i in range(8)]):
+    for d in ctx.pmap(shard_exotic, [(ctx.tier, ctx.seed, i) for i in range(32)]):
         rep.merge(d, "long_and_exotic_values")
     for d in ctx.pmap(shard_long_params, [(ctx.tier, ctx.seed, i) for i in range(4)]):
         rep.merge(d, "grammar_long_parameter_lists")
